@@ -26,6 +26,7 @@ type Ctx struct {
 	lemmas                  map[string]string // module functions modelled by a lemma in BOUNDS (bounds.Config.Lemmas)
 	wClosedSeen             int
 	c17Seen                 int
+	carryNilSeen            int
 	lemmaEntries            map[string]bool // entries analysed with the lemmas
 	lemmasUsed              map[string]bool
 	modular                 map[string]*bounds.ModSpec // functions analysed as entries of their own under a precondition
